@@ -1,6 +1,6 @@
 (* Props_C18.v — property C18 (every statement of an operation carries the caller's context):
    ONLY theorem statements, each closed by [exact] of a lemma of C18_Proofs.v. *)
-From Verif Require Import Base C18_Model C18_Check C18_Proofs.
+From Verif Require Import Base C18_Model C18_Ops C18_Check C18_Proofs C18_Proofs2.
 Open Scope Z_scope.
 
 (* For EVERY operation tree (any nesting of internal sessions, explicit rebindings, transactions,
@@ -47,3 +47,57 @@ Proof.
   - cbn in P. apply andb_prop in P. rewrite app_nil_r. apply IH. apply P.
 Qed.
 Print Assumptions c18_event_tree.
+
+(* ---------------------------------------------------------------- operation trees (C18_Ops.v, round 7)
+   The structure of gorm's composite operations is inside the model: op_tree builds, from the roles
+   record of the current source, the PrepareStmt mode and an operation's structure (Create / Save /
+   Updates / Delete with nested association saves and cascades, Find with a preload tree, association
+   mode, Transaction blocks with save points, FindInBatches / CreateInBatches), the tree gorm executes.
+   For EVERY roles record whose literals keep the context and whose call sites pass it on
+   (roles_ok, established for the regenerated record by FactsOK_C18.roles_keep_ctx), EVERY PrepareStmt
+   mode and EVERY operation structure (induction over the nested structure, no bounds): *)
+
+(* every literal and call site of the tree has the good form, and the tree contains no rebinding *)
+Theorem c18_ops_ok : forall R prep d, roles_ok R = true -> forallb node_ok (op_tree R prep d) = true.
+Proof. exact ops_ok. Qed.
+Print Assumptions c18_ops_ok.
+
+Theorem c18_ops_no_rebind : forall R prep d, existsb has_rebind (op_tree R prep d) = false.
+Proof. exact ops_no_rebind. Qed.
+Print Assumptions c18_ops_no_rebind.
+
+(* hence every driver call of the operation carries the context of the handle it was started on *)
+Theorem c18_ops_ctx_preserved : forall cp R prep d h, copies_ok cp = true -> roles_ok R = true ->
+  Forall (fun kc => snd kc = h_ctx h) (run_list cp (op_tree R prep d) h).
+Proof. exact ops_ctx_preserved. Qed.
+Print Assumptions c18_ops_ctx_preserved.
+
+(* the tree check_case runs (op_whole): the caller binds a handle to [tag], optionally derives a
+   further session that does not repeat the context, and issues the finisher calls [ds]: every driver
+   call of every one of them carries [tag], whatever handle the caller started from *)
+Theorem c18_ops_caller_ctx : forall cp R prep tag derive ds h,
+  copies_ok cp = true -> roles_ok R = true -> derive_ok derive = true ->
+  Forall (fun kc => snd kc = tag) (run cp (caller_tree R prep tag derive ds) h).
+Proof. exact ops_caller_ctx. Qed.
+Print Assumptions c18_ops_caller_ctx.
+
+(* and a done context lets no call of the operation reach the driver (database/sql's behaviour as
+   hypothesis, as in c18_cancelled_runs_nothing) *)
+Theorem c18_ops_cancelled_runs_nothing :
+  forall (done : ctx -> bool) (reaches_driver : call -> bool),
+  (forall k c, done c = true -> reaches_driver (k, c) = false) ->
+  forall cp R prep tag derive ds h,
+  copies_ok cp = true -> roles_ok R = true -> derive_ok derive = true -> done tag = true ->
+  filter reaches_driver (run cp (caller_tree R prep tag derive ds) h) = [].
+Proof. exact ops_cancelled_runs_nothing. Qed.
+Print Assumptions c18_ops_cancelled_runs_nothing.
+
+(* non-vacuity: a Create with nested association saves in the default transaction followed by a Find
+   with a nested preload tree, through a caller-derived session: 13 driver calls, all with the tag
+   (25 with PrepareStmt); and a roles record with one bad literal is rejected and loses the context *)
+Example c18_ops_demo :
+  roles_ok roles_now = true
+  /\ run cp_all (caller_tree roles_now false 7 (Some (mk_slit FAbsent true false true)) demo_ops) (mk_h 0 1)
+     = [(KBegin, 7); (KQuery, 7); (KQuery, 7); (KQuery, 7); (KQuery, 7); (KQuery, 7); (KQuery, 7); (KExec, 7);
+        (KQuery, 7); (KQuery, 7); (KQuery, 7); (KQuery, 7); (KQuery, 7)].
+Proof. repeat split. Qed.
